@@ -2,6 +2,7 @@
 import itertools
 import random
 from lib import *
+from props import nlrun
 
 TARGETS = ["Props/C06.vo", "Run/Eval_C06.vo"]
 HEADER = ("From Coq Require Import NArith List.\nFrom UPF Require Import Model.IPPool Run.Eval_C06.\n"
@@ -88,6 +89,59 @@ def monitor(c, o):
     if len(o["free"]) + len(o["inv"]) != size - 2:
         return ("not-conserved", "free + held != pool size")
     return None
+
+
+# ------------------------------------------------------------------------------------- node-level leg (monitor only)
+
+def gen_node_leg():
+    """several peers associate back to back (well within one second) through the real NewPFCPConn and each asks the UPF
+    for a UE address (CHV4): the pool is shared by all associations and keyed by the UP-chosen SEID"""
+    S = nlrun.step
+    out = []
+    for n, rep_ in ((2, 0), (2, 1), (4, 0), (4, 1)):
+        steps = [S("burst", burst=[S("setup", p) for p in range(n)], ms=5000)]
+        steps += [S("establish", p, k=0, chv4=True) for p in range(n)]
+        steps += [S("delete", 0, k=0), S("establish", 0, k=1, chv4=True)]
+        if n > 2:
+            steps += [S("delete", 1, k=0), S("establish", 2, k=1, chv4=True), S("delete", 3, k=0)]
+        else:
+            steps += [S("delete", 1, k=0)]
+        out.append({"name": f"node:{n}-peers-chv4#{rep_}", "sc": {"peers": n, "pool": "10.250.0.0/24", "steps": steps}})
+    return out
+
+
+def node_leg_monitor(item, r):
+    ab = nlrun.abnormal(r)
+    if ab:
+        return [("node-leg:abnormal-exit", ab)]
+    o = r["obs"]
+    F = [("node-leg:step-failed:" + nt[:40], nt) for nt in o["notes"]]
+    held = {}           # (peer, k) -> (address, UP F-SEID)
+    for x in o["results"]:
+        key = (x["p"], x["k"])
+        if x["op"] == "setup" and (not x["answered"] or x["cause"] != 1):
+            F.append(("node-leg:setup-not-accepted", str(x)))
+        elif x["op"] == "establish":
+            if not x["answered"] or x["cause"] != 1 or not x.get("ue_ip"):
+                F.append(("node-leg:establishment-without-address", f"{item['name']}: {x}"))
+                continue
+            for k2, (ip2, sd2) in held.items():
+                if ip2 == x["ue_ip"]:
+                    F.append(("node-leg:address-held-by-two-sessions",
+                              f"{item['name']}: {x['ue_ip']} given to session {key} (SEID {x['up_seid']}) while session {k2} (SEID {sd2}) holds it"))
+                if sd2 == x["up_seid"] and k2[0] != x["p"]:
+                    F.append(("node-leg:up-fseid-shared-by-two-associations",
+                              f"{item['name']}: UP F-SEID {sd2} of peer {k2[0]} also given to peer {x['p']}"))
+            held[key] = (x["ue_ip"], x["up_seid"])
+        elif x["op"] == "delete":
+            if not x["answered"] or x["cause"] != 1:
+                F.append(("node-leg:deletion-of-live-session-refused", f"{item['name']}: {x}"))
+            held.pop(key, None)
+    inv = o["inventory"]
+    want = {sd: ip_ for (ip_, sd) in held.values()}
+    if not F and inv != want:
+        F.append(("node-leg:pool-inventory-differs-from-live-sessions", f"{item['name']}: pool holds {inv}, live sessions {want}"))
+    return F
 
 
 def run(tier, seed, replay=None):
@@ -189,4 +243,18 @@ def run(tier, seed, replay=None):
         ck.notes["agent_level_scenarios"] = d2
     except HarnessError as e:
         ck.tie("agent-level histories run", False, str(e)[-800:])
+    # node level: associations created back to back through the real NewPFCPConn share the pool (monitor only)
+    if replay is None:
+        try:
+            items = gen_node_leg()
+            nclean = 0
+            for it, r in zip(items, nlrun.run_all(binary, [it["sc"] for it in items], tag="c06")):
+                ck.evaluations += 1
+                fs = node_leg_monitor(it, r)
+                nclean += 0 if fs else 1
+                for sig, text in fs:
+                    ck.fail(sig, text, {"input": it, "impl": {k: v for k, v in r.items() if k != "tail"}})
+            ck.notes["node_level_leg"] = {"scenarios": len(items), "clean": nclean}
+        except HarnessError as e:
+            ck.tie("node-level leg runs", False, str(e)[-800:])
     return ck.finish()
